@@ -32,7 +32,7 @@ CHECKS = {
    note=THRNOTE, technique="deterministic simulation: controlled scheduler over real threads, handler-log oracle + deadlock detector"),
  "C20": dict(engine="netsim/pulse", section="3 (C20)",
    text="Seeded histories on trees of instrumented PulseNodes under 1-3 manager roots driven through the ReflectServer protocol under a simulated clock (attach/detach/re-parent/destroy, requested times past/now/future/never/ties, invalidation from outside and from inside callbacks, early/exact/late wake-ups, clock jumps); root time == minimum, exactly the due nodes pulsed once with their own scheduled time, re-query discipline, with the one documented deferral relaxation for branches displaced by in-callback operations. Exploration.",
-   note="Trusts: the simulated clock (+1us per read); the first oracle's harness manager mirrors ReflectServer's use of CallGetPulseTimeAux/CallPulseAux, the second oracle (30% of the budget, worker property C20S) steps the real ReflectServer event loop with instrumented sessions and I/O policies; the order of simultaneously due callbacks is not checked; known finding F31 (a too-early wake-up after a later answer within one recalculation) is reported as such.", technique="deterministic discrete-event simulation: simulated clock driving real PulseNode trees, shadow-model oracle"),
+   note="Trusts: the simulated clock (+1us per read); the first oracle's harness manager mirrors ReflectServer's use of CallGetPulseTimeAux/CallPulseAux, the second oracle (30% of the budget, worker property C20S) steps the real ReflectServer event loop with instrumented sessions and I/O policies; the order of simultaneously due callbacks is not checked; known findings F31 (a too-early wake-up after a later answer within one recalculation) and F32 (a session attached from inside an I/O policy's GetPulseTime() is not asked before the wait) are reported as such.", technique="deterministic discrete-event simulation: simulated clock driving real PulseNode trees, shadow-model oracle"),
  "C04": dict(engine="netsim/server", section="3 (C04)",
    text="Seeded multi-client histories against the real ReflectServer (stepped one event-loop iteration at a time under simulated select/clock/transport) with segmentation, slow-reader, stall, slow-link (backlog outlasting the transport's output stall limit), cut, reset and clock-jump faults; the subscriber-mark invariant is evaluated after every processed command and every client's mirror is compared with the real tree at every forced quiescent point (bounded-step liveness). Exploration over the seeds run.",
    note=SRVNOTE, technique="deterministic simulation with fault injection: real server + simulated clients, reference evaluation at linearisation points, mirror/mark oracles at quiescence"),
